@@ -32,5 +32,7 @@ def check(run):
     run.gen("Gen_Signed")
     # histories on one EncryptedLeaseSet: decryption leaves its serialisation alone
     run.gen("Gen_C16", consts={"Part": "encdec"}, tag="Gen_C16_encdec")
+    # a struct copy of a parsed value, edited through an exported field and serialised: the original and its input buffer do not notice
+    run.gen("Gen_WarmEdit", consts={"Part": "all"}, tag="Gen_WarmEdit_all")
     run.replay_and_judge()
     return vlib.finish(run, "model_checking", RULE, ASSUME)
